@@ -76,6 +76,8 @@ func (c *Conn) CloseRead(ctx context.Context) context.Context {
 
 	go func() {
 		defer close(c.closeReadDone)
+		defer c.vEv("CrExit", 0, 0, 0, 0)
+		c.vEv("CrStart", 0, 0, 0, 0)
 		defer cancel()
 		defer c.close()
 		_, _, err := c.Reader(ctx)
@@ -102,6 +104,7 @@ func (c *Conn) SetReadLimit(n int64) {
 	}
 
 	c.msgReader.limitReader.limit.Store(n)
+	c.vEv("SetLimit", n, 0, 0, 0)
 }
 
 const defaultReadLimit = 32768
@@ -126,6 +129,7 @@ func (mr *msgReader) resetFlate() {
 	}
 	if mr.flateBufio == nil {
 		mr.flateBufio = getBufioReader(mr.readFunc)
+		mr.c.vObj("PoolGet", "fbr", mr.flateBufio)
 	}
 
 	if mr.flateContextTakeover() {
@@ -133,29 +137,35 @@ func (mr *msgReader) resetFlate() {
 	} else {
 		mr.flateReader = getFlateReader(mr.flateBufio, nil)
 	}
+	mr.c.vObj("PoolGet", "fr", mr.flateReader)
 	mr.limitReader.r = mr.flateReader
 	mr.flateTail.Reset(deflateMessageTail)
 }
 
 func (mr *msgReader) putFlateReader() {
 	if mr.flateReader != nil {
+		mr.c.vObj("PoolPut", "fr", mr.flateReader)
 		putFlateReader(mr.flateReader)
 		mr.flateReader = nil
 	}
 }
 
 func (mr *msgReader) close() {
+	mr.c.vEv("MrCloseConn", 0, 0, 0, 0)
 	mr.c.readMu.forceLock()
 	mr.putFlateReader()
 	if mr.dict != nil {
+		mr.c.vObj("PoolPut", "sw", mr.dict)
 		mr.dict.close()
 		mr.dict = nil
 	}
 	if mr.flateBufio != nil {
+		mr.c.vObj("PoolPut", "fbr", mr.flateBufio)
 		putBufioReader(mr.flateBufio)
 	}
 
 	if mr.c.client {
+		mr.c.vObj("PoolPut", "br", mr.c.br)
 		putBufioReader(mr.c.br)
 		mr.c.br = nil
 	}
@@ -189,11 +199,13 @@ func (c *Conn) readLoop(ctx context.Context) (header, error) {
 
 		if h.rsv1 && c.readRSV1Illegal(h) || h.rsv2 || h.rsv3 {
 			err := fmt.Errorf("received header with unexpected rsv bits set: %v:%v:%v", h.rsv1, h.rsv2, h.rsv3)
+			c.vEv("RdProtoErr", 1, 0, 0, 0)
 			c.writeError(StatusProtocolError, err)
 			return header{}, err
 		}
 
 		if !c.client && !h.masked {
+			c.vEv("RdProtoErr", 2, 0, 0, 0)
 			return header{}, errors.New("received unmasked frame from client")
 		}
 
@@ -211,6 +223,7 @@ func (c *Conn) readLoop(ctx context.Context) (header, error) {
 			return h, nil
 		default:
 			err := fmt.Errorf("received unknown opcode %v", h.opcode)
+			c.vEv("RdProtoErr", 3, 0, 0, 0)
 			c.writeError(StatusProtocolError, err)
 			return header{}, err
 		}
@@ -223,9 +236,11 @@ func (c *Conn) readFrameHeader(ctx context.Context) (header, error) {
 		return header{}, net.ErrClosed
 	case c.readTimeout <- ctx:
 	}
+	c.vEv("RdArm", vCtxID(ctx), 0, 0, 0)
 
 	h, err := readFrameHeader(c.br, c.readHeaderBuf[:])
 	if err != nil {
+		c.vErr("RdHeaderErr", err, 0)
 		select {
 		case <-c.closed:
 			return header{}, net.ErrClosed
@@ -241,6 +256,7 @@ func (c *Conn) readFrameHeader(ctx context.Context) (header, error) {
 		return header{}, net.ErrClosed
 	case c.readTimeout <- context.Background():
 	}
+	c.vHdr("RdHeader", h)
 
 	return h, nil
 }
@@ -251,9 +267,11 @@ func (c *Conn) readFramePayload(ctx context.Context, p []byte) (int, error) {
 		return 0, net.ErrClosed
 	case c.readTimeout <- ctx:
 	}
+	c.vEv("RdPayArm", vCtxID(ctx), int64(len(p)), 0, 0)
 
 	n, err := io.ReadFull(c.br, p)
 	if err != nil {
+		c.vErr("RdPayErr", err, int64(n))
 		select {
 		case <-c.closed:
 			return n, net.ErrClosed
@@ -269,6 +287,7 @@ func (c *Conn) readFramePayload(ctx context.Context, p []byte) (int, error) {
 		return n, net.ErrClosed
 	case c.readTimeout <- context.Background():
 	}
+	c.vEv("RdPayload", int64(n), 0, 0, 0)
 
 	return n, err
 }
@@ -298,6 +317,7 @@ func (c *Conn) handleControl(ctx context.Context, h header) (err error) {
 	if h.masked {
 		mask(b, h.maskKey)
 	}
+	c.vEvS("CtlPayload", string(b), int64(h.opcode))
 
 	switch h.opcode {
 	case opPing:
@@ -306,6 +326,7 @@ func (c *Conn) handleControl(ctx context.Context, h header) (err error) {
 		c.activePingsMu.Lock()
 		pong, ok := c.activePings[string(b)]
 		c.activePingsMu.Unlock()
+		c.vEvS("PongRcvd", string(b), vB(ok))
 		if ok {
 			select {
 			case pong <- struct{}{}:
@@ -324,6 +345,7 @@ func (c *Conn) handleControl(ctx context.Context, h header) (err error) {
 		return err
 	}
 
+	c.vEv("CloseRcvd", int64(ce.Code), int64(len(ce.Reason)), 0, 0)
 	err = fmt.Errorf("received close frame: %w", ce)
 	c.writeClose(ce.Code, ce.Reason)
 	c.readMu.unlock()
@@ -355,6 +377,7 @@ func (c *Conn) reader(ctx context.Context) (_ MessageType, _ io.Reader, err erro
 		return 0, nil, err
 	}
 
+	c.vEv("MsgStart", int64(h.opcode), vB(h.rsv1), vCtxID(ctx), 0)
 	c.msgReader.reset(ctx, h)
 
 	return MessageType(h.opcode), c.msgReader, nil
@@ -405,6 +428,7 @@ func (mr *msgReader) Read(p []byte) (n int, err error) {
 	defer mr.c.readMu.unlock()
 
 	n, err = mr.limitReader.Read(p)
+	mr.c.vErr("MrRead", err, int64(n))
 	if mr.flate && mr.flateContextTakeover() {
 		p = p[:n]
 		mr.dict.write(p)
@@ -485,11 +509,14 @@ func (lr *limitReader) reset(r io.Reader) {
 
 func (lr *limitReader) Read(p []byte) (int, error) {
 	if lr.n < 0 {
+		lr.c.vUse("UseBegin", lr.r)
+		defer lr.c.vUse("UseEnd", lr.r)
 		return lr.r.Read(p)
 	}
 
 	if lr.n == 0 {
 		err := fmt.Errorf("read limited at %v bytes", lr.limit.Load())
+		lr.c.vEv("LrLimitHit", lr.limit.Load(), 0, 0, 0)
 		lr.c.writeError(StatusMessageTooBig, err)
 		return 0, err
 	}
@@ -497,7 +524,9 @@ func (lr *limitReader) Read(p []byte) (int, error) {
 	if int64(len(p)) > lr.n {
 		p = p[:lr.n]
 	}
+	lr.c.vUse("UseBegin", lr.r)
 	n, err := lr.r.Read(p)
+	lr.c.vUse("UseEnd", lr.r)
 	lr.n -= int64(n)
 	if lr.n < 0 {
 		lr.n = 0
